@@ -239,6 +239,39 @@ impl V {
     }
 }
 
+/// `{:?}` of a cache prints its entries as a map; the harness parses them back.
+impl std::fmt::Debug for K {
+    fn fmt(&self, f: &mut std::fmt::Formatter<'_>) -> std::fmt::Result {
+        write!(f, "k{}", self.k)
+    }
+}
+
+impl std::fmt::Debug for V {
+    fn fmt(&self, f: &mut std::fmt::Formatter<'_>) -> std::fmt::Result {
+        write!(f, "v{}", self.id)
+    }
+}
+
+/// Parses the `{k1: v7, k2: v9}` rendering of a cache.
+pub fn parse_debug_map(s: &str) -> Vec<(u16, u32)> {
+    let mut out = Vec::new();
+    let inner = s.trim().trim_start_matches('{').trim_end_matches('}');
+    for part in inner.split(',') {
+        let part = part.trim();
+        if part.is_empty() {
+            continue;
+        }
+        let mut it = part.split(':');
+        let k = it.next().unwrap_or("").trim().trim_start_matches('k').parse::<u16>();
+        let v = it.next().unwrap_or("").trim().trim_start_matches('v').parse::<u32>();
+        match (k, v) {
+            (Ok(k), Ok(v)) => out.push((k, v)),
+            _ => out.push((u16::MAX, u32::MAX)), // unparsable: shows up as a phantom pair
+        }
+    }
+    out
+}
+
 impl Clone for V {
     fn clone(&self) -> V {
         if self.t.reg.tick_clone() {
